@@ -73,41 +73,65 @@ Definition w_midletterq (c : wbc) : bool := wbc_beq c WB_MidLetter || wbc_beq c 
 Definition w_midnumq (c : wbc) : bool := wbc_beq c WB_MidNum || wbc_beq c WB_MidNumLet || wbc_beq c WB_Single_Quote.
 Definition w_is (k c : wbc) : bool := wbc_beq c k.
 
+(* the finite context the word rules read at one position *)
+Record wctx := mkW {
+  y_a_cr : bool;        (* the rune before is CR *)
+  y_a_zwj : bool;       (* the rune before is U+200D *)
+  y_a : wbc;            (* class of the rune before *)
+  y_b_lf : bool;        (* the rune after is LF *)
+  y_b_pic : bool;       (* the rune after is Extended_Pictographic *)
+  y_c : wbc;            (* class of the rune after *)
+  y_p : wbc;            (* class of the previous significant rune (WB4: Extend|Format|ZWJ skipped) *)
+  y_pp : wbc;           (* class of the significant rune before that *)
+  y_n : wbc;            (* class of the next significant rune after the rune after the position *)
+  y_ri_odd : bool       (* an odd number of RI directly before, Extend|Format|ZWJ skipped *)
+}.
+
+Definition wb_core (x : wctx) : bool :=
+  let a := y_a x in let c := y_c x in let p := y_p x in let pp := y_pp x in let n := y_n x in
+  if y_a_cr x && y_b_lf x then false                                 (* WB3  CR × LF *)
+  else if w_is WB_NewlineCRLF a then true                            (* WB3a (Newline|CR|LF) ÷ *)
+  else if w_is WB_NewlineCRLF c then true                            (* WB3b ÷ (Newline|CR|LF) *)
+  else if y_a_zwj x && y_b_pic x then false                          (* WB3c ZWJ × ExtPict *)
+  else if w_is WB_WSegSpace a && w_is WB_WSegSpace c then false      (* WB3d WSegSpace × WSegSpace *)
+  else if w_is WB_ExtendFormat c then false                          (* WB4  × (Extend|Format|ZWJ) *)
+  (* WB4: in the remaining rules Extend|Format|ZWJ are skipped on both sides *)
+  else if w_ahletter p && w_ahletter c then false                                   (* WB5 *)
+  else if w_ahletter p && w_midletterq c && w_ahletter n then false                 (* WB6 *)
+  else if w_ahletter pp && w_midletterq p && w_ahletter c then false                (* WB7 *)
+  else if w_is WB_Hebrew_Letter p && w_is WB_Single_Quote c then false              (* WB7a *)
+  else if w_is WB_Hebrew_Letter p && w_is WB_Double_Quote c && w_is WB_Hebrew_Letter n then false   (* WB7b *)
+  else if w_is WB_Hebrew_Letter pp && w_is WB_Double_Quote p && w_is WB_Hebrew_Letter c then false  (* WB7c *)
+  else if w_is WB_Numeric p && w_is WB_Numeric c then false                         (* WB8 *)
+  else if w_ahletter p && w_is WB_Numeric c then false                              (* WB9 *)
+  else if w_is WB_Numeric p && w_ahletter c then false                              (* WB10 *)
+  else if w_is WB_Numeric pp && w_midnumq p && w_is WB_Numeric c then false         (* WB11 *)
+  else if w_is WB_Numeric p && w_midnumq c && w_is WB_Numeric n then false          (* WB12 *)
+  else if w_is WB_Katakana p && w_is WB_Katakana c then false                       (* WB13 *)
+  else if (w_ahletter p || w_is WB_Numeric p || w_is WB_Katakana p || w_is WB_ExtendNumLet p)
+          && w_is WB_ExtendNumLet c then false                                      (* WB13a *)
+  else if w_is WB_ExtendNumLet p
+          && (w_ahletter c || w_is WB_Numeric c || w_is WB_Katakana c) then false   (* WB13b *)
+  else if w_is WB_RI c && y_ri_odd x then false                                     (* WB15/16 *)
+  else true.                                                                        (* WB999 *)
+
+Definition nonef (l : list obs) : list obs := filter (fun o => negb (wb_ef o)) l.
+
+(* the context at the position between (a :: left') (reversed) and b, the next significant class being n *)
+Definition wctx_of (a : obs) (left' : list obs) (b : obs) (n : wbc) : wctx :=
+  let l1 := nonef (a :: left') in
+  mkW (o_cr a) (o_zwj a) (o_wb a) (o_lf b) (o_pic b) (o_wb b)
+      (hd_wb l1) (hd_wb (tl l1)) n (Nat.odd (leading (wb_is WB_RI) l1)).
+
+Definition wbn (left : list obs) (b : obs) (n : wbc) : bool :=
+  match left with
+  | [] => true                                                        (* WB1 *)
+  | a :: left' => wb_core (wctx_of a left' b n)
+  end.
+
 Definition wb_boundary (left right : list obs) : bool :=
-  match left, right with
-  | [], _ => true                                                        (* WB1 *)
-  | _, [] => true                                                        (* WB2 *)
-  | a :: left', b :: right' =>
-      if o_cr a && o_lf b then false                                     (* WB3  CR × LF *)
-      else if wb_is WB_NewlineCRLF a then true                           (* WB3a (Newline|CR|LF) ÷ *)
-      else if wb_is WB_NewlineCRLF b then true                           (* WB3b ÷ (Newline|CR|LF) *)
-      else if o_zwj a && o_pic b then false                              (* WB3c ZWJ × ExtPict *)
-      else if wb_is WB_WSegSpace a && wb_is WB_WSegSpace b then false    (* WB3d WSegSpace × WSegSpace *)
-      else if wb_ef b then false                                         (* WB4  × (Extend|Format|ZWJ) *)
-      else
-        (* WB4: in the remaining rules Extend|Format|ZWJ are skipped on both sides *)
-        let l1 := skip_ef left in
-        let p := hd_wb l1 in                              (* previous significant class *)
-        let pp := hd_wb (skip_ef (tl l1)) in              (* the one before *)
-        let c := o_wb b in
-        let n := hd_wb (skip_ef right') in                (* next significant class after b *)
-        if w_ahletter p && w_ahletter c then false                                   (* WB5 *)
-        else if w_ahletter p && w_midletterq c && w_ahletter n then false            (* WB6 *)
-        else if w_ahletter pp && w_midletterq p && w_ahletter c then false           (* WB7 *)
-        else if w_is WB_Hebrew_Letter p && w_is WB_Single_Quote c then false         (* WB7a *)
-        else if w_is WB_Hebrew_Letter p && w_is WB_Double_Quote c && w_is WB_Hebrew_Letter n then false   (* WB7b *)
-        else if w_is WB_Hebrew_Letter pp && w_is WB_Double_Quote p && w_is WB_Hebrew_Letter c then false  (* WB7c *)
-        else if w_is WB_Numeric p && w_is WB_Numeric c then false                    (* WB8 *)
-        else if w_ahletter p && w_is WB_Numeric c then false                         (* WB9 *)
-        else if w_is WB_Numeric p && w_ahletter c then false                         (* WB10 *)
-        else if w_is WB_Numeric pp && w_midnumq p && w_is WB_Numeric c then false    (* WB11 *)
-        else if w_is WB_Numeric p && w_midnumq c && w_is WB_Numeric n then false     (* WB12 *)
-        else if w_is WB_Katakana p && w_is WB_Katakana c then false                  (* WB13 *)
-        else if (w_ahletter p || w_is WB_Numeric p || w_is WB_Katakana p || w_is WB_ExtendNumLet p)
-                && w_is WB_ExtendNumLet c then false                                 (* WB13a *)
-        else if w_is WB_ExtendNumLet p
-                && (w_ahletter c || w_is WB_Numeric c || w_is WB_Katakana c) then false   (* WB13b *)
-        else if w_is WB_RI c && Nat.odd (leading (wb_is WB_RI) (filter (fun o => negb (wb_ef o)) left)) then false  (* WB15/16 *)
-        else true                                                                    (* WB999 *)
+  match right with
+  | [] => true                                                        (* WB2 *)
+  | b :: right' => wbn left b (hd_wb (skip_ef right'))
   end.
 Definition wb_spec (text : list obs) : list bool := positions wb_boundary [] text.
